@@ -6,3 +6,8 @@
 From Ink.Gen Require Import EngineGen.
 Lemma now_lookahead_structure_confined : lookahead_structure_confined = true.
 Proof. reflexivity. Qed.
+
+(* the tie of registrations_survive (Shell/HostFrame.v): in the Rust sources what the host has registered is written
+   by the registration calls only (tools/gen_engine.py, item 14) *)
+Lemma now_registrations_written_by_registration_calls : registrations_written_by_registration_calls = true.
+Proof. reflexivity. Qed.
